@@ -255,6 +255,14 @@ func (vm *VirtualMachine) resetForNewCode() {
 	vm.loadedCode = map[*compiler.Code]*code{}
 	vm.modules = map[string]*object.Module{}
 
+	// Modules that are globals stay available to import statements (they were
+	// registered by applyOptions, before this reset)
+	for name, value := range vm.globals {
+		if module, ok := value.(*object.Module); ok {
+			vm.modules[name] = module
+		}
+	}
+
 	// Clear arrays
 	for i := 0; i < MaxStackDepth; i++ {
 		vm.stack[i] = nil
